@@ -41,10 +41,24 @@ def top_frame(out):
     return "?"
 
 
-def classify(rc, to, out, outdir):
+def resource_site(data):
+    """Which input feature explains a hang / out-of-memory outcome (so that a different cause is a different key)."""
+    try:
+        txt = data.decode(errors="replace")
+    except AttributeError:
+        txt = data
+    for mm in re.finditer(r"<(?:\w+:)?type\b[^>]*>", txt):
+        tag = mm.group(0)
+        lm = re.search(r'length="(\d+)"', tag)
+        if lm and int(lm.group(1)) >= 10 ** 7 and 'presence="constant"' in tag:
+            return "char-constant-huge-length"
+    return "?"
+
+
+def classify(rc, to, out, outdir, data=b""):
     """Returns None if the run satisfies the property, else (class, site, summary)."""
     if to:
-        return ("hang", "timeout", "no exit within %ds" % TIMEOUT)
+        return ("hang", resource_site(data), "no exit within %ds" % TIMEOUT)
     ub = build.ubsan_reports(out)
     if ub:
         msg, f, line = ub[0]
@@ -53,10 +67,10 @@ def classify(rc, to, out, outdir):
         mm = re.search(r"ERROR: AddressSanitizer: ([\w-]+)", out)
         kind = mm.group(1) if mm else "?"
         if "hard rss limit" in out or "allocation-size-too-big" in out or "out-of-memory" in out or "requested allocation size" in out:
-            kind = "out-of-memory"
+            return ("asan:out-of-memory", resource_site(data), out[out.find("ERROR: AddressSanitizer"):][:600])
         return ("asan:" + kind, top_frame(out), out[out.find("ERROR: AddressSanitizer"):][:600])
-    if "hard rss limit exhausted" in out:
-        return ("asan:out-of-memory", top_frame(out), out[-400:])
+    if "hard rss limit exhausted" in out or "hard RSS limit" in out:
+        return ("asan:out-of-memory", resource_site(data), out[-400:])
     mm = re.search(r"terminate called after throwing an instance of '([^']+)'(?:\s+what\(\):\s*(.*))?", out)
     if mm:
         return ("abort:" + mm.group(1), norm((mm.group(2) or "").strip())[:60].replace(" ", "_"), mm.group(0)[:300])
@@ -75,6 +89,10 @@ def classify(rc, to, out, outdir):
         return None
     if "Error" not in out:
         return ("no-diagnostic", "exit%s" % rc, "exit %s without an Error line: %s" % (rc, out[-200:]))
+    if files and re.search(r"can't (open|write|read) file|can't create directory", out):
+        # an I/O failure while writing (e.g. ENAMETOOLONG for a 300-character type name), not a rejected schema:
+        # exit status and diagnostic are what C20 asks for, partially written output is expected
+        return None
     if files:
         mm = re.search(r"Error\S*: (?:\S+:\d+:\d+: )?(.*)", out)
         return ("leftover-files", norm(mm.group(1) if mm else "?")[:50].replace(" ", "_"),
@@ -143,6 +161,10 @@ def main():
             wrapper = bases[0][1].replace("    <types>", '    <xi:include xmlns:xi="http://www.w3.org/2001/XInclude" href="%s"/>\n    <types>' % n, 1)
             jobs.append(("include:" + n, wrapper.encode(), "include %s at top level" % n))
             jobs.append(("as-main:" + n, t.encode(), "include file given as the schema"))
+        for ln in ("100000000", "2147483648"):
+            x = re.sub(r'(<type name="C_strpad"[^>]*length=)"8"', r'\1"%s"' % ln, bases[0][1])
+            if x != bases[0][1]:
+                jobs.append(("huge-constant-length:" + ln, x.encode(), "char constant with length=%s" % ln))
         rng = C.rng_for(rep.seed, "c09")
         for i in range(nmut):
             n, x = bases[rng.randrange(len(bases))]
@@ -159,11 +181,11 @@ def main():
                 f.write(data)
             rc, o, _, to = C.run([exe, "--output-dir", od, xp], timeout=TIMEOUT, env=env, cwd=cwd)
             out = o.decode(errors="replace")
-            v = classify(rc, to, out, od)
+            v = classify(rc, to, out, od, data)
             if v and v[0] == "hang":
                 rc, o, _, to = C.run([exe, "--output-dir", od, xp], timeout=TIMEOUT * 3, env=env, cwd=cwd)
                 out = o.decode(errors="replace")
-                v = classify(rc, to, out, od)
+                v = classify(rc, to, out, od, data)
             first = ""
             mm = re.search(r"Error\S*: (?:\S+?:\d+:\d+: )?(.*)", out)
             if mm:
